@@ -29,7 +29,7 @@ def unmarshal(t: type[T] | refs.ForwardRef | str, value: tp.Any) -> T:
     return unmarshalled
 
 
-@compat.cache
+@refs.cache
 def unmarshaller(
     t: type[T] | refs.ForwardRef | compat.TypeAliasType | str,
 ) -> routines.AbstractUnmarshaller[T]:
